@@ -125,9 +125,12 @@ impl<VM: VMBinding> PageResource<VM> for FreeListPageResource<VM> {
                 // after ensure_mapped(). However, I think this is sufficient given that this option is only used for PageProtect for debugging use.
                 while !new_chunk && !MMAPPER.is_mapped_address(rtn) {}
                 self.munprotect(rtn, sync.free_list.size(page_offset as _) as _)
-            } else if !self.common.contiguous && new_chunk {
-                // Don't unprotect if this is a new unmapped discontiguous chunk
-                // For a new mapped discontiguous chunk, this should previously be released and protected by us.
+            } else if new_chunk {
+                // Don't unprotect if this is a new unmapped chunk.
+                // A new mapped discontiguous chunk was previously released and protected by us.  The same
+                // holds for a contiguous space: "new" is decided by the high-water mark of allocation
+                // *starts*, so the chunk may already have been mapped (and protected on release) as the
+                // tail of an earlier allocation that crossed the chunk boundary.
                 // We still need to unprotect it.
                 if MMAPPER.is_mapped_address(rtn) {
                     self.munprotect(rtn, sync.free_list.size(page_offset as _) as _)
